@@ -53,6 +53,8 @@ def cases(tier):
     for s in specs:
         for part in ("diff", "conv", "upw", "upwdir", "upwmag", "tvd01"):
             out.append({"grid": s, "part": part})
+    for s in U.big_specs():
+        out.append({"grid": s, "part": "big"})
     # limiter sweep on a reduced set of grids
     for s in specs:
         d = U.dim(s["cls"])
@@ -268,6 +270,41 @@ def _upwind_mag_part(g, res):
                     break
 
 
+def _big_part(g, res):
+    """Many cells per axis: the identities on generic coefficient fields (all four global sign patterns of the
+    velocity) and two generic cell fields including ghost values."""
+    findings = res["findings"]
+    rows = np.flatnonzero(g.imask)
+    phis = [U.generic_array(g.fshape, tag=21, signed=True), U.generic_array(g.fshape, tag=23, signed=False)]
+    D = U.generic_face(g.mesh, tag=25)
+    absu = g.face_arrays(U.generic_face(g.mesh, tag=27))
+    FL = pf.fluxLimiter("Koren")
+
+    def rep(what, a, b, extra=""):
+        res["evals"] += 1
+        res["nontrivial"] += 1
+        bad = cmp_tol(a[rows], b[rows], rel=1e-11)
+        if bad.any():
+            i = int(rows[np.flatnonzero(bad)[0]])
+            findings.append({"key": "C05:big:%s:%s" % (what, g.cls),
+                             "msg": "%s on %s%s: matrix side %.12g, explicit chain %.12g in cell %s"
+                                    % (what, U.spec_id(g.spec), extra, a[i], b[i], list(g.cell_of_flat(i))), "detail": {"grid": U.spec_id(g.spec)}})
+    for fld in phis:
+        phi = g.cell(fld)
+        x = fld.ravel()
+        rep("diffusionTerm", pf.diffusionTerm(D) @ x, _div(g, D * pf.gradientTerm(phi)))
+        for pi, sg in enumerate(_dir_patterns(g)[:4] if g.d > 1 else [[np.ones(g.face_shapes[0])], [-np.ones(g.face_shapes[0])],
+                                                                      [np.where(np.arange(g.face_shapes[0][0]) % 2 == 0, 1.0, -1.0)],
+                                                                      [np.where(np.arange(g.face_shapes[0][0]) % 3 == 0, -1.0, 1.0)]]):
+            u = U.face_from_arrays(g.mesh, [a * s_ for a, s_ in zip(absu, sg)])
+            rep("convectionTerm", pf.convectionTerm(u) @ x, _div(g, u * pf.linearMean(phi)), " (sign pattern %d)" % pi)
+            rep("convectionUpwindTerm", pf.convectionUpwindTerm(u) @ x, _div(g, u * pf.upwindMean(phi, u)), " (sign pattern %d)" % pi)
+            rhs = np.asarray(pf.convectionTVDupwindRHSTerm(u, phi, FL), dtype=float)
+            psi = psi_ref(g, fld, [a * s_ for a, s_ in zip(absu, sg)], FL)
+            if all(np.all(np.isfinite(p_)) for p_ in psi):
+                rep("convectionTVDupwindRHSTerm", rhs, -_div(g, u * U.face_from_arrays(g.mesh, psi)), " (sign pattern %d)" % pi)
+
+
 def _FL0(r):
     return 0.0 * r
 
@@ -426,7 +463,7 @@ def _tvdref_part(g, res):
 def weight(case):
     sh = case["grid"]["shape"]
     n = int(np.prod([k + 2 for k in sh]))
-    w = {"diff": 1, "conv": 1, "upw": 4, "upwdir": 1, "upwmag": 3, "tvd01": 3, "tvdref": 6, "tvddir": 6}[case["part"]]
+    w = {"diff": 1, "conv": 1, "upw": 4, "upwdir": 1, "upwmag": 3, "tvd01": 3, "tvdref": 6, "tvddir": 6, "big": 0.02}[case["part"]]
     return n * n * len(sh) * w
 
 
@@ -478,6 +515,8 @@ def run_case(case):
         _upwind_part(g, res)
     elif part == "upwmag":
         _upwind_mag_part(g, res)
+    elif part == "big":
+        _big_part(g, res)
     elif part == "upwdir":
         _upwind_dir_part(g, res)
     elif part == "tvd01":
